@@ -16,10 +16,16 @@
 //! body in one piece) and CLOSES without having read the body, while the client is still sending a body far larger than
 //! every buffer on the way. The same exchange is repeated on fresh connections (what the endpoint does at the moment both the
 //! origin's answer and the failure of its own write are there is decided per exchange).
-//! in : [front (0 | 1), rounds] [method_kind] target request_headers(flat) [request_body_len, request_body_seed] [origin_wait_ms]
-//!      response_head_bytes [response_body_len, response_body_seed]
+//! With `client_pause_ms` the client reads the response 16 KiB at a time and pauses after every read (a client link slower than the
+//! origin's); with `drain` the origin, having written its answer, waits until its send queue is empty (ioctl TIOCOUTQ: every byte
+//! of the answer has been acknowledged by the endpoint's host, so the origin itself loses nothing by closing) and closes only then;
+//! with `gap_ms` it writes head, pause, body instead of one piece.
+//! in : [front (0 | 1), rounds, client_pause_ms, drain] [method_kind] target request_headers(flat) [request_body_len, request_body_seed]
+//!      [origin_wait_ms, gap_ms] response_head_bytes [response_body_len, response_body_seed]
 //! out: [rounds] then per round: [status] response_headers(flat, sorted) [response_body_received, response_body_matches]
-//!      origin_request_head [origin_answered, client_body_bytes_written]; last [origin_accepts]
+//!      origin_request_head [origin_answered, client_body_bytes_written, drained]; last [origin_accepts]
+//!      drained: 0 = not asked for | 1 = the send queue was empty when the origin closed | 2 = it never emptied (20 s) or could
+//!      not be asked: the exchange is not to be judged
 use crate::util::*;
 use std::sync::{Arc, Mutex};
 use std::time::Duration;
@@ -374,11 +380,21 @@ pub fn run(toks: Vec<Tok>) -> Vec<Tok> {
 struct Refusal {
     head: Vec<u8>,
     answered: bool,
+    drained: u8,
+}
+
+/// Bytes of the socket's send queue that are not yet acknowledged by the peer's host (unsent ones included)
+fn send_queue(fd: i32) -> Option<i32> {
+    let mut v: libc::c_int = 0;
+    let rc = unsafe { libc::ioctl(fd, libc::TIOCOUTQ, &mut v) };
+    (rc == 0).then_some(v)
 }
 
 pub fn refusal(toks: Vec<Tok>) -> Vec<Tok> {
     let front = toks[0][0];
     let rounds = toks[0].get(1).copied().unwrap_or(1) as usize;
+    let client_pause = toks[0].get(2).copied().unwrap_or(0) as u64;
+    let drain = toks[0].get(3).copied().unwrap_or(0) == 1;
     let method = match toks[1][0] {
         6 => "GET",
         7 => "POST",
@@ -389,6 +405,8 @@ pub fn refusal(toks: Vec<Tok>) -> Vec<Tok> {
     let req_len = toks[4].first().copied().unwrap_or(0) as usize;
     let req_seed = toks[4].get(1).copied().unwrap_or(0);
     let wait = toks[5].first().copied().unwrap_or(0) as u64;
+    let gap = toks[5].get(1).copied().unwrap_or(0) as u64;
+    let head_len = bytes(&toks[6]).len();
     let resp_head = bytes(&toks[6]);
     let resp_len = toks[7].first().copied().unwrap_or(0) as usize;
     let resp_seed = toks[7].get(1).copied().unwrap_or(0);
@@ -428,10 +446,34 @@ pub fn refusal(toks: Vec<Tok>) -> Vec<Tok> {
                         };
                         conns.lock().unwrap()[k].head = got[..end].to_vec();
                         tokio::time::sleep(Duration::from_millis(wait)).await;
-                        if s.write_all(&answer).await.is_err() {
+                        if gap > 0 {
+                            if s.write_all(&answer[..head_len]).await.is_err() {
+                                return;
+                            }
+                            let _ = s.flush().await;
+                            tokio::time::sleep(Duration::from_millis(gap)).await;
+                            if s.write_all(&answer[head_len..]).await.is_err() {
+                                return;
+                            }
+                        } else if s.write_all(&answer).await.is_err() {
                             return;
                         }
                         let _ = s.flush().await;
+                        if drain {
+                            // close only once the endpoint's host has acknowledged every byte of the answer: nothing of it is
+                            // lost on this side by closing with the request body unread
+                            use std::os::fd::AsRawFd;
+                            let fd = s.as_raw_fd();
+                            let t0 = tokio::time::Instant::now();
+                            let drained = loop {
+                                match send_queue(fd) {
+                                    Some(0) => break 1,
+                                    Some(_) if t0.elapsed() < Duration::from_secs(20) => tokio::time::sleep(Duration::from_millis(1)).await,
+                                    _ => break 2,
+                                }
+                            };
+                            conns.lock().unwrap()[k].drained = drained;
+                        }
                         conns.lock().unwrap()[k].answered = true;
                         // closed with the body unread
                         drop(s);
@@ -526,7 +568,7 @@ pub fn refusal(toks: Vec<Tok>) -> Vec<Tok> {
                 })
             };
             let mut got = vec![];
-            let mut buf = vec![0u8; 65536];
+            let mut buf = vec![0u8; if client_pause > 0 { 16384 } else { 65536 }];
             let mut head_end = None;
             let started = tokio::time::Instant::now();
             while started.elapsed() < Duration::from_millis(wait + 30000) {
@@ -540,6 +582,9 @@ pub fn refusal(toks: Vec<Tok>) -> Vec<Tok> {
                         got.extend_from_slice(&buf[..n]);
                         if head_end.is_none() {
                             head_end = find(&got, b"\r\n\r\n").map(|p| p + 4);
+                        }
+                        if client_pause > 0 {
+                            tokio::time::sleep(Duration::from_millis(client_pause)).await;
                         }
                     }
                     _ => break,
@@ -581,7 +626,7 @@ pub fn refusal(toks: Vec<Tok>) -> Vec<Tok> {
             out.push(h);
             out.push(vec![body_received as u128, body_matches as u128]);
             out.push(tok(&o.head));
-            out.push(vec![o.answered as u128, written.load(std::sync::atomic::Ordering::Relaxed) as u128]);
+            out.push(vec![o.answered as u128, written.load(std::sync::atomic::Ordering::Relaxed) as u128, o.drained as u128]);
         }
         out.push(vec![conns.lock().unwrap().len() as u128]);
         out
